@@ -8,6 +8,10 @@ package main
 // changes coq/gen/Consts.v and with it the side conditions of the C16 proofs.
 
 import (
+	"encoding/json"
+	"fmt"
+	"os"
+	"os/exec"
 	"sort"
 	"strings"
 
@@ -58,7 +62,61 @@ func c16GenRange(unlock bool, get func(e *appctlpb.TrafficPattern) int64) (lo, h
 	return
 }
 
+// The generation ranges are measured in a FRESH child process per unlockAll value (this binary re-executed with
+// "c16gen 0|1"): rng.FixedInt keeps a process-wide hint cache and config.go asks the same hint with different ranges
+// depending on unlockAll, so measuring both in one process would let a history-dependent rng shift the constants
+// (that defect is the business of the c16 driver's history-independence oracle, not of the constants).
+type c16Range struct {
+	Name   string
+	Lo, Hi int64
+}
+
+func c16GenRanges(u bool) []c16Range {
+	sfx := "L"
+	if u {
+		sfx = "U"
+	}
+	var out []c16Range
+	add := func(name string, get func(e *appctlpb.TrafficPattern) int64) {
+		lo, hi := c16GenRange(u, get)
+		out = append(out, c16Range{name + sfx, lo, hi})
+	}
+	add("Sleep", func(e *appctlpb.TrafficPattern) int64 { return int64(e.GetTcpFragment().GetMaxSleepMs()) })
+	add("Type", func(e *appctlpb.TrafficPattern) int64 { return int64(e.GetNonce().GetType()) })
+	add("Min", func(e *appctlpb.TrafficPattern) int64 { return int64(e.GetNonce().GetMinLen()) })
+	add("Max", func(e *appctlpb.TrafficPattern) int64 { return int64(e.GetNonce().GetMaxLen()) })
+	add("Mid", func(e *appctlpb.TrafficPattern) int64 { return int64(e.GetPadding().GetMaxMiddlePaddingLen()) })
+	add("End", func(e *appctlpb.TrafficPattern) int64 { return int64(e.GetPadding().GetMaxEndPaddingLen()) })
+	add("Mode", func(e *appctlpb.TrafficPattern) int64 { return int64(e.GetLowEntropy().GetMode()) })
+	return out
+}
+
+func c16GenRangesFresh(u bool) []c16Range {
+	exe, err := os.Executable()
+	if err != nil {
+		panic(err)
+	}
+	arg := "0"
+	if u {
+		arg = "1"
+	}
+	out, err := exec.Command(exe, "c16gen", arg).Output()
+	if err != nil {
+		panic(fmt.Errorf("dumpconsts c16gen child failed: %v", err))
+	}
+	var rs []c16Range
+	if err := json.Unmarshal(out, &rs); err != nil {
+		panic(err)
+	}
+	return rs
+}
+
 func init() {
+	if len(os.Args) == 3 && os.Args[1] == "c16gen" {
+		b, _ := json.Marshal(c16GenRanges(os.Args[2] == "1"))
+		os.Stdout.Write(b)
+		os.Exit(0)
+	}
 	z("C16_maxPaddingLen", int64(trafficpattern.VerifC16MaxPaddingLen))
 	z("C16_packetOverhead", int64(protocol.VerifC16PacketOverhead))
 	z("C16_protoDataC2SLowEntropy", int64(protocol.VerifC16DataClientToServerLowEntropy))
@@ -102,29 +160,11 @@ func init() {
 
 	// generation ranges (behavioural: extreme values over seeds 0..4095, nothing set explicitly)
 	for _, u := range []bool{false, true} {
-		sfx := "L"
-		if u {
-			sfx = "U"
+		for _, rg := range c16GenRangesFresh(u) {
+			if !strings.HasPrefix(rg.Name, "Max") {
+				z("C16_gen"+strings.TrimRight(rg.Name, "LU")+"Lo"+rg.Name[len(rg.Name)-1:], rg.Lo)
+			}
+			z("C16_gen"+strings.TrimRight(rg.Name, "LU")+"Hi"+rg.Name[len(rg.Name)-1:], rg.Hi)
 		}
-		lo, hi := c16GenRange(u, func(e *appctlpb.TrafficPattern) int64 { return int64(e.GetTcpFragment().GetMaxSleepMs()) })
-		z("C16_genSleepLo"+sfx, lo)
-		z("C16_genSleepHi"+sfx, hi)
-		lo, hi = c16GenRange(u, func(e *appctlpb.TrafficPattern) int64 { return int64(e.GetNonce().GetType()) })
-		z("C16_genTypeLo"+sfx, lo)
-		z("C16_genTypeHi"+sfx, hi)
-		lo, hi = c16GenRange(u, func(e *appctlpb.TrafficPattern) int64 { return int64(e.GetNonce().GetMinLen()) })
-		z("C16_genMinLo"+sfx, lo)
-		z("C16_genMinHi"+sfx, hi)
-		_, hi = c16GenRange(u, func(e *appctlpb.TrafficPattern) int64 { return int64(e.GetNonce().GetMaxLen()) })
-		z("C16_genMaxHi"+sfx, hi)
-		lo, hi = c16GenRange(u, func(e *appctlpb.TrafficPattern) int64 { return int64(e.GetPadding().GetMaxMiddlePaddingLen()) })
-		z("C16_genMidLo"+sfx, lo)
-		z("C16_genMidHi"+sfx, hi)
-		lo, hi = c16GenRange(u, func(e *appctlpb.TrafficPattern) int64 { return int64(e.GetPadding().GetMaxEndPaddingLen()) })
-		z("C16_genEndLo"+sfx, lo)
-		z("C16_genEndHi"+sfx, hi)
-		lo, hi = c16GenRange(u, func(e *appctlpb.TrafficPattern) int64 { return int64(e.GetLowEntropy().GetMode()) })
-		z("C16_genModeLo"+sfx, lo)
-		z("C16_genModeHi"+sfx, hi)
 	}
 }
